@@ -177,6 +177,11 @@ func runCheck(prop, tier string, seed int, timeout time.Duration, writeBaseline,
 		}
 	}
 	sort.Strings(keys)
+	for _, lm := range cs.Lemmas {
+		if hasLabel(lm.Clause.Labels, prop) {
+			pkgSet[lm.Pkg] = true
+		}
+	}
 	if len(keys) == 0 {
 		return engineFail(prop, "no function under contract serves this property")
 	}
@@ -185,6 +190,8 @@ func runCheck(prop, tier string, seed int, timeout time.Duration, writeBaseline,
 		pkgs = append(pkgs, p)
 	}
 	sort.Strings(pkgs)
+	// every package that carries contracts is loaded with function bodies (callees marked inline live there)
+	pkgs = contractPackages(cs)
 	prog, err := LoadProgram(repoDir, pkgs)
 	if err != nil {
 		return engineFail(prop, "load: %v", err)
@@ -193,7 +200,11 @@ func runCheck(prop, tier string, seed int, timeout time.Duration, writeBaseline,
 	if err != nil {
 		return engineFail(prop, "%v", err)
 	}
-	defer os.RemoveAll(tmp)
+	if os.Getenv("GVC_KEEP") == "" {
+		defer os.RemoveAll(tmp)
+	} else {
+		fmt.Println("keeping SMT files in", tmp)
+	}
 
 	type fres struct {
 		r    *FuncResult
@@ -232,6 +243,17 @@ func runCheck(prop, tier string, seed int, timeout time.Duration, writeBaseline,
 			trusted[a] = true
 		}
 	}
+	for _, lm := range cs.Lemmas {
+		if !hasLabel(lm.Clause.Labels, prop) {
+			continue
+		}
+		r := VerifyLemma(prog, cs, lm)
+		if r.Err != nil {
+			return engineFail(prop, "%v", r.Err)
+		}
+		results = append(results, &fres{r, r.Unit.Obls})
+		units = append(units, r.Unit)
+	}
 	SolveAll(units, tmp, timeout, 12)
 
 	base := &Baseline{Property: prop}
@@ -254,7 +276,8 @@ func runCheck(prop, tier string, seed int, timeout time.Duration, writeBaseline,
 	var samples []sample
 	nObl, nProved := 0, 0
 	solverTime := map[string]float64{}
-	nVacOK, nVacInconcl := 0, 0
+	nVacOK, nVacInconcl, nUnreach := 0, 0, 0
+	var unreachable []string
 	seen := map[string]bool{}
 	var newProved, newUnproved []string
 	replayDir := filepath.Join(verifDir, "replays", prop)
@@ -270,6 +293,12 @@ func runCheck(prop, tier string, seed int, timeout time.Duration, writeBaseline,
 				case "proved":
 					nVacOK++
 				case "failed":
+					if strings.Contains(o.Kind, "vacuity.return") {
+						// a return that the contracts make unreachable (dead code): reported, not an error
+						nUnreach++
+						unreachable = append(unreachable, o.Name)
+						continue
+					}
 					return engineFail(prop, "vacuity guard: %s — %s", o.Name, o.Output)
 				default:
 					nVacInconcl++
@@ -366,7 +395,7 @@ func runCheck(prop, tier string, seed int, timeout time.Duration, writeBaseline,
 			"undecided":    undecided,
 			"known_findings": knownLines,
 			"missing_obligations": missing,
-			"vacuity": map[string]int{"probes_satisfiable": nVacOK, "probes_inconclusive": nVacInconcl},
+			"vacuity": map[string]interface{}{"probes_satisfiable": nVacOK, "probes_inconclusive": nVacInconcl, "unreachable_returns": unreachable},
 			"solver_time_s": stime,
 			"explanation":  "obligations = proof obligations claimed for this property (generated from /repo's current source); discharged = those a solver answered unsat for; undecided[] lists obligations never discharged on the reference tree (not counted, not claimed)",
 		},
